@@ -121,6 +121,13 @@ def generate(tier, rng):
         sizes = [len(bstr(bytes.fromhex(v.lstrip("!").replace(".", "")))) for v in vals]
         mx = rng.choice([max(sizes), max(sizes) - 1, max(sizes) + 1, rng.choice(sizes), rng.choice(sizes) - 1, 512 * 1024, 0])
         out.append("IOW max=%d vals=%s sink=%s" % (max(mx, 0), ",".join(vals), sk))
+    # frames larger than 64 KiB (a reader that fills its buffer in steps has seams there): Interrupted and short reads around 2^16
+    bigp = bytes((i * 7 + 3) & 0xff for i in range(70000))
+    frb = [good(bigp), good(b"\x01\x02")]
+    out.append(reader_line("IOR", 100000, frb, None, "sched", [4, 65536, "I", "I", 3000, "I", 100000]))
+    out.append(reader_line("IOR", 100000, frb, None, "sched", [3, 1, 65535, 2, "I", 100000]))
+    out.append(reader_line("IOR", 100000, frb, None, "sched", [100000]))
+    out.append(reader_line("IOR", 100000, frb, 4 + 65536 + 10, "sched", [70000, "I", 100000]))
     return out
 
 def _kv(line, key):
